@@ -161,6 +161,78 @@ fn transparency_case(check: &Check, rng: &mut Rng) {
     }
 }
 
+/// Early data: no barrier between handshake and application traffic. Each side upgrades and then writes (and
+/// flushes) at once, so the responder can find the initiator's last handshake message and its first data frames
+/// in one read (and vice versa for data following the responder's handshake message). Same byte-equality oracle.
+fn early_data_case(check: &Check, rng: &mut Rng) {
+    let ka = gen_key(rng.usize(3), rng);
+    let kb = gen_key(rng.usize(3), rng);
+    let (sa, sb) = if rng.chance(1, 2) { (Sched::smooth(), Sched::smooth()) } else { (Sched::random(rng), Sched::random(rng)) };
+    let desc = format!("early data; {} | {}", sa.describe(), sb.describe());
+    let (a, b, _a2b, _b2a) = pipe(sa, sb);
+    let (Ok(ca_cfg), Ok(cb_cfg)) = (noise::Config::new(&ka), noise::Config::new(&kb)) else {
+        return check.inconclusive("noise::Config::new failed");
+    };
+    let mk = |tag: u8, rng: &mut Rng| -> Vec<Vec<u8>> { (0..rng.range(1, 4)).map(|_| { let n = *rng.pick(&[1usize, 17, 1000, 5031]); tagged(rng, n, tag) }).collect() };
+    let (wa, wb) = (mk(0x21, rng), mk(0x43, rng));
+    let sent_a: Vec<u8> = wa.concat();
+    let sent_b: Vec<u8> = wb.concat();
+    let small_reads = rng.bool();
+    async fn traffic(out: noise::Output<End>, chunks: Vec<Vec<u8>>, small: bool) -> Result<Vec<u8>, String> {
+        let (mut r, mut w) = out.split();
+        let writer = async move {
+            for c in chunks {
+                w.write_all(&c).await.map_err(|e| format!("write: {e}"))?;
+                w.flush().await.map_err(|e| format!("flush: {e}"))?;
+            }
+            w.close().await.map_err(|e| format!("close: {e}"))
+        };
+        let reader = async move {
+            let mut got = vec![];
+            loop {
+                let mut buf = vec![0u8; if small { 7 } else { 4096 }];
+                let n = r.read(&mut buf).await.map_err(|e| format!("read: {e}"))?;
+                if n == 0 {
+                    break;
+                }
+                got.extend_from_slice(&buf[..n]);
+            }
+            Ok::<_, String>(got)
+        };
+        let (w, r) = futures::future::join(writer, reader).await;
+        w?;
+        r
+    }
+    let fa = async move {
+        let (_, out) = ca_cfg.upgrade_outbound(a, "/noise").await.map_err(|e| format!("handshake: {e}"))?;
+        traffic(out, wa, small_reads).await
+    };
+    let fb = async move {
+        let (_, out) = cb_cfg.upgrade_inbound(b, "/noise").await.map_err(|e| format!("handshake: {e}"))?;
+        traffic(out, wb, small_reads).await
+    };
+    let witness = || json!({"schedules": desc, "a_bytes": sent_a.len(), "b_bytes": sent_b.len(), "small_reads": small_reads});
+    match catch(|| drive(futures::future::join(fa, fb), 4_000_000)) {
+        Err(p) => check.violation(format!("panic@{}", p.site()), format!("noise early data panicked: {}", p.msg), witness()),
+        Ok(Driven::Budget) => check.inconclusive("noise early-data poll budget"),
+        Ok(Driven::Stalled) => check.violation("noise-stream-stalls", "early data: written and closed, but the peer's read never completes", witness()),
+        Ok(Driven::Done((ra, rb))) => {
+            for (who, got, want) in [("b-to-a", &ra, &sent_b), ("a-to-b", &rb, &sent_a)] {
+                match got {
+                    Err(e) => check.violation(format!("noise-io-error-{}", e.split(':').next().unwrap_or("?")), format!("early data, {who}: {e}"), witness()),
+                    Ok(g) if g != want => {
+                        let sig = if g.len() < want.len() { "noise-bytes-lost" } else if g.len() > want.len() { "noise-bytes-added" } else { "noise-bytes-altered" };
+                        check.violation(sig, format!("early data, {who}: read {} bytes, written {}", g.len(), want.len()), witness());
+                    }
+                    Ok(_) => {}
+                }
+            }
+            check.case(Sig::new().str(&desc).u64(sent_a.len() as u64).u64(sent_b.len() as u64).0, true);
+            check.count("early_data_cases", 1);
+        }
+    }
+}
+
 #[derive(Clone, Debug)]
 enum Fault {
     Flip { at: u64, mask: u8 },
@@ -303,6 +375,7 @@ pub fn run(args: &Args) -> i32 {
     let thorough = args.tier == Tier::Thorough;
     let n_t = budget(args, 12, 300, 8_000);
     vmon::par_cases(&check, n_t, args.threads, |_, rng| transparency_case(&check, rng));
+    vmon::par_cases(&check, n_t, args.threads, |_, rng| early_data_case(&check, rng));
     check.note("phase_s_transparency", json!(check.elapsed()));
     // small layouts: every position
     let n_l = budget(args, 3, 40, 400);
